@@ -30,6 +30,16 @@ print("stable_passed=%d/%d missing=%s"%(len(want)-len(missing),len(want),missing
 PY
 )
 rm -f /tmp/seedsuite.$$.json
+# the actor package has a load-sensitive flake (a leaked goroutine of one test panics into the next):
+# a stable test missing from the package run is re-run alone, three times, before it counts as failing
+case "$suite" in *"missing=[]"*) ;; *)
+  retry=""
+  for t in $(echo "$suite" | grep -o "::Test[A-Za-z_0-9]*" | sed 's/:://'); do
+    okc=0; for i in 1 2 3; do go test -vet=off -count=1 -timeout 5m -run "^$t\$" ./... 2>&1 | grep -q '^FAIL' || okc=$((okc+1)); done
+    retry="$retry $t:alone_ok=$okc/3"
+  done
+  suite="$suite; re-run alone:$retry";;
+esac
 python3 - "$out" "$name" "$prop" "$build" "$with" "$without" "$suite" "$pkgs" <<'PY'
 import json,sys
 out,name,prop,build,w,wo,suite,pkgs=sys.argv[1:9]
